@@ -471,6 +471,8 @@ func render(e ast.Expr) string {
 		return "map[" + render(v.Key) + "]" + render(v.Value)
 	case *ast.StructType:
 		return "struct{}"
+	case *ast.Ellipsis:
+		return "..." + render(v.Elt)
 	case *ast.TypeAssertExpr:
 		if v.Type == nil {
 			return render(v.X) + ".(type)"
@@ -619,6 +621,31 @@ func trExpr(e ast.Expr, en env) val {
 			}
 			return val{lean: "[" + strings.Join(els, ", ") + "]", kd: kind{k: "list", s: "AFTResult"}}
 		}
+		if at, ok := v.Type.(*ast.ArrayType); ok && len(v.Elts) > 0 {
+			if st, ok := at.Elt.(*ast.StarExpr); ok {
+				name := render(st.X)
+				if cur != nil {
+					if a, ok := cur.typeMap[name]; ok {
+						name = a
+					}
+				}
+				if _, ok := schemas[name]; ok {
+					var els []string
+					for _, el := range v.Elts {
+						x := trExpr(el, en)
+						if x.kd.k != "ptr" || x.kd.s != name {
+							fail(el.Pos(), "element of kind %s in a slice of *%s", x.kd, name)
+						}
+						if x.kd.nn {
+							els = append(els, "(some "+atom(x.lean)+")")
+						} else {
+							els = append(els, x.lean)
+						}
+					}
+					return val{lean: "[" + strings.Join(els, ", ") + "]", kd: kind{k: "list", s: name, optElems: true}}
+				}
+			}
+		}
 		if at, ok := v.Type.(*ast.ArrayType); ok && len(v.Elts) == 0 {
 			if st, ok := at.Elt.(*ast.StarExpr); ok {
 				name := render(st.X)
@@ -630,6 +657,24 @@ func trExpr(e ast.Expr, en env) val {
 				if _, ok := schemas[name]; ok {
 					// an empty slice of pointers to a known struct (non-nil elements are appended)
 					return val{lean: "[]", kd: kind{k: "list", s: name, elemNN: true}}
+				}
+			}
+		}
+		if mt, ok := v.Type.(*ast.MapType); ok && len(v.Elts) == 0 {
+			if st, ok := mt.Value.(*ast.StarExpr); ok {
+				name := render(st.X)
+				if cur != nil {
+					if a, ok := cur.typeMap[name]; ok {
+						name = a
+					}
+				}
+				if _, ok := schemas[name]; ok {
+					kk := kNat
+					if render(mt.Key) == "string" {
+						kk = kStr
+					}
+					// a local map of pointers: the model's association-list Map, empty
+					return val{lean: "[]", kd: kind{k: "map", s: name, t: []kind{kk}}}
 				}
 			}
 		}
@@ -1010,9 +1055,16 @@ func needsGeneralLoop(list []ast.Stmt) bool {
 				}
 			case *ast.AssignStmt:
 				for _, l := range x.Lhs {
-					if _, ok := l.(*ast.SelectorExpr); ok {
+					switch l.(type) {
+					case *ast.SelectorExpr, *ast.IndexExpr, *ast.StarExpr:
 						general = true
 					}
+				}
+			}
+			if ce, ok := n.(*ast.CallExpr); ok && cur != nil && cur.tbFatal {
+				fn := render(ce.Fun)
+				if o, ok := cur.oracles[fn]; fn == "t.Fatalf" || fn == "t.Fatal" || (ok && o.fatalIfFalse) {
+					general = true
 				}
 			}
 			return !general
@@ -1982,7 +2034,7 @@ func trBlock(list []ast.Stmt, en env, k cont) string {
 
 func isSkippableCall(c *ast.CallExpr) bool {
 	fn := render(c.Fun)
-	if strings.HasPrefix(fn, "log.") {
+	if strings.HasPrefix(fn, "log.") || fn == "t.Helper" {
 		return true
 	}
 	for _, s := range []string{".Lock", ".Unlock", ".RLock", ".RUnlock"} {
@@ -2093,8 +2145,9 @@ func forkEntries(en *env, r string) {
 func mapUpdate(en *env, mexpr ast.Expr, key ast.Expr, newVal string, replaced bool, pos token.Pos) {
 	r := render(mexpr)
 	m, ok := en.vars[r]
-	if !ok || m.kd.k != "map" || cur == nil || !cur.isState(r) {
-		fail(pos, "update of %s, which is not a map-valued state field", r)
+	_, isLocal := mexpr.(*ast.Ident)
+	if !ok || m.kd.k != "map" || cur == nil || !(cur.isState(r) || isLocal) {
+		fail(pos, "update of %s, which is not a map-valued state field or local map", r)
 	}
 	if replaced {
 		// m[k] = p: pointers read from the map before keep pointing at the old structs
@@ -2456,6 +2509,20 @@ func trStmts(list []ast.Stmt, en env, k cont) string {
 				}
 				e1.isNil[r+"["+render(c.Args[1])+"]"] = true
 				return wrapLets(lets, next(e1))
+			}
+			if cur != nil && cur.tbFatal {
+				fn := render(c.Fun)
+				if fn == "t.Fatalf" || fn == "t.Fatal" {
+					// the test is failed and its goroutine ends: the function reports failure
+					return tbResult(en, "false")
+				}
+				if o, ok := cur.oracles[fn]; ok && o.fatalIfFalse {
+					// a helper that fails the test itself: nothing after it runs when it does
+					vs := trCall(c, en)
+					e1 := absorb(en)
+					lets := takeLets()
+					return wrapLets(lets, "(if "+atom(vs[0].lean)+" = true then "+next(e1)+"\nelse "+tbResult(e1, "false")+")")
+				}
 			}
 			trCall(c, en) // oracle with an effect, results discarded
 			e1 := absorb(en)
@@ -2919,7 +2986,27 @@ func trRetVal(e ast.Expr, want string, en env) string {
 	return ""
 }
 
+// tbResult: the result of a function whose only outcome is whether it failed the test
+func tbResult(en env, b string) string {
+	parts := []string{b}
+	for _, st := range cur.state {
+		parts = append(parts, en.vars[st.goExpr].lean)
+	}
+	if cur.effects {
+		parts = append(parts, effsExpr(en))
+	}
+	if len(parts) == 1 {
+		return b
+	}
+	return "(" + strings.Join(parts, ", ") + ")"
+}
+
 func trReturn(r *ast.ReturnStmt, en env) string {
+	if cur != nil && cur.tbFatal && len(r.Results) == 0 {
+		en = absorb(en)
+		lets := takeLets()
+		return wrapLets(lets, tbResult(en, "true"))
+	}
 	if len(r.Results) == 1 {
 		if c, ok := r.Results[0].(*ast.CallExpr); ok {
 			if fl, ok := en.closures[render(c.Fun)]; ok {
@@ -3187,7 +3274,7 @@ func translate(sp *fnSpec, files map[string]*ast.File, srcs map[string][]byte) (
 		if sp.loop {
 			return "(LoopOut.cont " + atom(e.vars["gotmsg"].lean) + " " + effsExpr(e) + ")"
 		}
-		if len(sp.rets) == 0 {
+		if len(sp.rets) == 0 || sp.tbFatal {
 			return trReturn(&ast.ReturnStmt{}, e)
 		}
 		fail(fd.Body.Rbrace, "control reaches the end of a function that returns values")
